@@ -700,8 +700,13 @@ func awsOpCase(r *Rng, fleet bool, w io.Writer) string {
 				}
 			}
 			line["delta"] = delta
+			stallReset()
 			outcome := protect(func() error { return ng.IncreaseSize(delta) })
 			obs["outcome"] = outcome
+			if fleet && stalled() {
+				line["stalled"] = true
+
+			}
 		case "delete":
 			var nodes []*v1.Node
 			var pnodes []PNode
@@ -795,10 +800,16 @@ func awsOpCase(r *Rng, fleet bool, w io.Writer) string {
 				if r.chance(20) {
 					rec.FailAt[3+r.intn(2)] = true // and perhaps the clean-up as well
 				}
+				stallReset()
 				outcome := protect(func() error { return ng.IncreaseSize(d2) })
 				obs = map[string]interface{}{"outcome": outcome, "j": nnEntries(rec.Entries)}
-				emitLine(w, map[string]interface{}{"op": "awsop", "kind": "increase", "cfg": pcfg, "g": pg, "delta": d2, "seq": seq,
-					"resps": nnResps(rec.Resps), "obs": obs})
+				l2 := map[string]interface{}{"op": "awsop", "kind": "increase", "cfg": pcfg, "g": pg, "delta": d2, "seq": seq,
+					"resps": nnResps(rec.Resps), "obs": obs}
+				if fleet && stalled() {
+					l2["stalled"] = true
+
+				}
+				emitLine(w, l2)
 			}
 		}
 		// follow-up operations on the SAME provider object, without a refresh in between: the provider's cached
